@@ -544,6 +544,34 @@ func (c *Ctx) checkExclusiveGetOrCreate(rule string, fn *ssa.Function, fm *types
 			}
 		}
 	})
+	// what is cached must be a vector that was registered successfully: never nil, never on the
+	// error edge of Register (a cached nil is later returned as a hit with a nil error)
+	var regErr ssa.Value
+	instrsOf(fn, func(in ssa.Instruction) {
+		if call, ok := in.(*ssa.Call); ok {
+			if _, m := ifaceCall(call); m != nil && m.Name() == "Register" {
+				regErr = call
+			}
+		}
+	})
+	instrsOf(fn, func(in ssa.Instruction) {
+		mu, ok := in.(*ssa.MapUpdate)
+		if !ok {
+			return
+		}
+		if f, _ := loadedField(mu.Map); f != fm {
+			return
+		}
+		if isNilConst(mu.Value) {
+			okAll = false
+			why = "a nil vector is stored in the by-name cache: the next request for that id is served the nil entry with a nil error and the caller dereferences it"
+			return
+		}
+		if regErr != nil && guardedByEdge(in, func(cond ssa.Value) (bool, bool) { m, nn := nilTest(regErr)(cond); return m, !nn }) == nil {
+			okAll = false
+			why = "a vector is cached on a path where its registration may have failed"
+		}
+	})
 	if lkKey == nil || muKey == nil || canon(lkKey) != canon(muKey) {
 		okAll = false
 		why = "the cache is not probed and filled under the same id"
